@@ -22,25 +22,28 @@ MANIFEST = {
             "homogeneous of the degree its rule claims over any ordered field and any c > 0; for every valid combination "
             "of the 24 builder flags the composed stage list type-checks with all normalised outputs of degree 0 and the "
             "scaling factor of degree 1, hence run(c*x) = run(x) on normalised keys and scaling_factor scales by c; "
-            "masked_kspace = mask x (kspace / s), target = ComputeImage(kspace / s) (SSL variant too), crop-shape tags, "
-            "mask seed = file name only. The stage list is translated from the current source of both builders and "
-            "proved equal to the modelled builder; exact differential correspondence of stages and whole pipelines "
+            "masked_kspace = mask x (kspace / s), target = ComputeImage(kspace / s) (SSL variant too), shape tags for every "
+            "flag combination (tuple and string crops, pad/rescale), mask and random-crop seed = file name only, "
+            "ModuleWrapper batching equivalence. Both the stage list of the two builders and the program of every "
+            "transform class (keys read/written, presence guards, primitive applied) are translated from the current source "
+            "and proved equal to the model (rfl); exact differential correspondence of stages and whole pipelines "
             "(identity FFT operators, dyadic data) against the Lean model over rationals.",
-    "note": "Trusted: Lean kernel (+propext, Classical.choice, Quot.sound), the AST translator, the hand-written stage "
-            "programs (tied by correspondence, not translated), externals assumed positively homogeneous (FFT-based crop / "
+    "note": "Trusted: Lean kernel (+propext, Classical.choice, Quot.sound), the AST translator (symbolic execution of the "
+            "forward/__call__ bodies with register coalescing; the three random augmentations and the percentile loop are "
+            "matched as wholes), the semantics of the primitives (tied by correspondence), externals assumed positively homogeneous (FFT-based crop / "
             "pad / rescale, backward operator, coil compression, Gaussian weighting) and sqrt(q^2 x) = q sqrt(x). Partial: "
             "ESPIRiT maps (opaque) and random augmentations (SystemRandom, probability 0) are outside the quantifier; "
             "float rounding/overflow and NaN/Inf freedom are checked on the implementation only (bit-exact for 2^k, 1e-4 "
-            "for arbitrary scales); crop_shape is proved for a subset of flags; an all-zero masked k-space makes the "
-            "percentile scaling raise (precondition).",
+            "for arbitrary scales); shape tags are rank-agnostic (real 2-D/3-D shapes are checked on the implementation); an "
+            "all-zero masked k-space makes the percentile scaling raise (precondition, repro in the evidence notes).",
     "technique": "Lean 4 proof (type-soundness induction, decide +kernel on the builder) + AST translation bridge (rfl) + "
                  "differential correspondence + property oracle on the real pipeline",
 }
 TRUSTED = [
     "Lean 4.33 kernel; axioms ⊆ {propext, Classical.choice, Quot.sound}",
     "harness/translate/recipes/c08.py (Python AST -> stage table, threshold expression, seed expressions)",
-    "Model/Pipeline.lean `compile` (stage programs) — hand-modelled from the class bodies, validated by the stage / "
-    "pipeline correspondence, not translated",
+    "harness/translate/recipes/c08.py StageExec (class bodies -> List Instr): vocabulary of call patterns, layout-only "
+    "calls treated as identity, register coalescing; `evalOp` (semantics of the primitives) validated by correspondence",
     "externals: FFT-based operators, mask functions, splitters (homogeneity of the linear ones is an assumption)",
     "torch elementwise float32 arithmetic is exact on the dyadic probe set",
 ]
@@ -1023,8 +1026,11 @@ def check_wrapper(cfg):
     got = run_real(wrapped, clone(sample))
     module = wrapped._transform
     for batch in (1, 2):
-        b = {kk: (torch.stack([v.clone() for _ in range(batch)], 0) if isinstance(v, torch.Tensor) else [v] * batch)
-             for kk, v in sample.items()}
+        # element 0 is the sample; a second element (different values) must not leak into element 0
+        def other(v):
+            return v.clone() if v.dtype == torch.bool else 3.0 * torch.flip(v, dims=(0,))
+        b = {kk: (torch.stack([v.clone()] + [other(v) for _ in range(batch - 1)], 0) if isinstance(v, torch.Tensor)
+                  else [v] * batch) for kk, v in sample.items()}
         try:
             out = module.forward(b)
         except (KeyboardInterrupt, SystemExit):
